@@ -51,6 +51,25 @@ func c17Special(rng *Rng, n int) []string {
 		}
 		out = append(out, sb.String())
 	}
+	// names whose labels are all valid, of total length around both limits (so that only the
+	// length of the whole name decides)
+	for l := 1; l <= 70; l++ {
+		if l <= 8 || l >= 58 {
+			var sb strings.Builder
+			for sb.Len() < l {
+				if sb.Len() > 0 && l-sb.Len() >= 2 {
+					sb.WriteByte('.')
+				}
+				for j := 0; j < 3 && sb.Len() < l; j++ {
+					sb.WriteByte("abc"[j])
+				}
+			}
+			out = append(out, sb.String())
+			if l > 62 {
+				out = append(out, strings.Repeat("a", 60)+"."+strings.Repeat("b", l-61), strings.Repeat("a", l-4)+".bbb", "x."+strings.Repeat("y", l-2))
+			}
+		}
+	}
 	out = append(out, "192.168.1.1", "100.200.100.200", "255.255.255.255", "256.100.100.100", "100.100.100",
 		"100.100.100.100.100", "010.100.100.100", "100.100.100.256", "000.000.000.000", "100.100.100.1000",
 		"111.222.033.044", "::1", "fe80::1", "1:2:3:4:5:6:7:8", "aaa.bbb.ccc.ddd", "abc..def", ".abc", "abc.", "abc.-de", "abc.de-",
